@@ -80,7 +80,7 @@ def _run_all(d, lib, backend, env_extra, prefix, with_module, epoch=True):
         env["SOURCE_DATE_EPOCH"] = "1700000000"
     env.update(env_extra)
     argv = prefix + [build.tool("interrogate"), "-oc", "l_igate.cxx", "-od", "l.in", "-oh", "l.txt", "-module", "m", "-library", "l", backend,
-                     "-string", "-fnames"] + igate.std_args() + lib.search + ["l.h"]
+                     "-string", "-fnames"] + igate.std_args() + lib.search + lib.cmd_headers
     r = run.run(argv, cwd=d, env=env, timeout=60, mem_mb=0)
     r2 = None
     if with_module and r.rc == 0 and backend == "-python-native":
@@ -140,7 +140,7 @@ def judge(case, ctx):
                     return Outcome(ok=False, key="nondeterministic:%s:%s" % (case["backend"], n), classes=classes,
                                    detail="%s of the identical command differs under perturbation %s (back-end %s); first difference at byte %d:\n--- reference\n%s\n--- perturbed\n%s\n--- header\n%s" % (
                                        n, p, case["backend"], i, old[max(0, i - 200):i + 200].decode("latin-1"),
-                                       new[max(0, i - 200):i + 200].decode("latin-1"), lib.files["l.h"][:1500]))
+                                       new[max(0, i - 200):i + 200].decode("latin-1"), lib.files[lib.main][:1500]))
         classes += ["pert." + k for k in sorted(kinds)]
         # without SOURCE_DATE_EPOCH: only the file identifier may differ, and it is the same number in code and database
         if case["perts"][0]["seed"] % 4 == 0:
